@@ -312,12 +312,12 @@ func spellLinesSel(lines [][]cmPiece, tabsOn func(line, run int) bool) string {
 }
 
 type c02Case struct {
-	Kind    string   `json:"kind"` // gen | rewrite
-	Source  rawDoc   `json:"source"`
-	Expect  string   `json:"expect"`
-	Variant string   `json:"variant"`
-	Example int      `json:"example,omitempty"`
-	From    string   `json:"from,omitempty"`  // generator configuration
+	Kind    string      `json:"kind"` // gen | rewrite
+	Source  rawDoc      `json:"source"`
+	Expect  string      `json:"expect"`
+	Variant string      `json:"variant"`
+	Example int         `json:"example,omitempty"`
+	From    string      `json:"from,omitempty"`  // generator configuration
 	Lines   [][]cmPiece `json:"lines,omitempty"` // gen: the abstract lines (for cause analysis)
 }
 
